@@ -25,7 +25,7 @@ def build_liesel_model():
     offset: a bare Value node (no Var) with a var-less Dist N(0, 0.5) evaluated at it
     sigma = exp(log_sigma) is a WEAK variable that also carries a distribution IG(2, 1)
     eta = mu + X beta + 0.5 z + offset; y ~ N(eta, sigma)  (observed)
-    pred = 2 eta + 1: a derived quantity that feeds no distribution
+    pred = eta_twice + 1, eta_twice = 2 eta a bare Calc node: derived quantities that feed no distribution
     """
     import jax.numpy as jnp
     import liesel.model as lsl
@@ -43,7 +43,9 @@ def build_liesel_model():
     xm = lsl.Var(jnp.asarray(X, dtype=jnp.float32), name="X")
     eta = lsl.Var(lsl.Calc(lambda m, x, b, zz, off: m + x @ b + 0.5 * zz + off, mu, xm, beta, z, offset), name="eta")
     y = lsl.obs(jnp.asarray(Y, dtype=jnp.float32), lsl.Dist(tfd.Normal, loc=eta, scale=sigma), name="y")
-    pred = lsl.Var(lsl.Calc(lambda e: 2.0 * e + 1.0, eta), name="pred")
+    # a BARE Calc (no Var around it) between a parameter's descendants and a downstream variable
+    eta_twice = lsl.Calc(lambda e: 2.0 * e, eta, _name="eta_twice")
+    pred = lsl.Var(lsl.Calc(lambda t: t + 1.0, eta_twice), name="pred")
     # posterior-predictive replicate: a strong variable WITHOUT distribution (not an ancestor
     # of any log-prob) and a cached statistic derived from it
     y_rep = lsl.Var(jnp.asarray(Y, dtype=jnp.float32) * 0.0, name="y_rep")
@@ -65,7 +67,7 @@ def param_node(p: str) -> str:
     return "offset" if p == "offset" else f"{p}_value"
 
 
-_ETA = {"eta_value", "eta_var_value", "y_log_prob", "pred_value", "pred_var_value"}
+_ETA = {"eta_value", "eta_var_value", "y_log_prob", "eta_twice", "pred_value", "pred_var_value"}
 # node names that may change when a parameter changes (reference adjacency, by hand)
 DESCENDANTS = {
     "mu": {"mu_value", "mu_var_value", "mu_log_prob"} | _ETA,
@@ -111,6 +113,7 @@ def ref_liesel(params: dict) -> dict:
     return {
         "sigma_value": sigma,
         "eta_value": eta,
+        "eta_twice": 2.0 * eta,
         "pred_value": 2.0 * eta + 1.0,
         "rep_stat_value": float(np.sum(y_rep)) + 0.5,
         "w_value": w,
